@@ -260,6 +260,49 @@ def analyse_tr_counter(mir):
     return out
 
 
+def analyse_inline_trailing(mir):
+    """Functions that push TrailEntry values themselves (inlined copies of MachineState::trail, e.g.
+    the continuation capture of get_continuation_chunk): on every path that overwrites a stack cell
+    at `loc` without pushing an entry, z3 decides that `loc < b` is impossible (sufficiency, as for
+    trail() itself); b is the captured / read choice-point boundary. -> (queries, meta)"""
+    queries, meta = [], []
+    for name, spans in mir.index.items():
+        if name.endswith("::trail"):
+            continue
+        if not any("Vec::<types::TrailEntry>::push" in l for (s0, e0) in spans for l in mir.lines[s0:e0]):
+            continue
+        body = mir.body(name)
+        bcap = None
+        for dn, place in body.debug.items():
+            if re.search(r"(^|__)b$", dn):
+                mm = re.search(r"_1\.(\d+):", place)
+                if mm:
+                    bcap = ("proj", ("proj", ("s", "_1"), ".%s" % mm.group(1)), "*")
+        if bcap is None:
+            continue
+        heads = util.back_edge_targets(body)
+        short = name.split("::")[-2] + "::" + name.split("::")[-1] if "closure" in name else name.split("::")[-1]
+        n = 0
+        for entry in (list(heads) or ["bb0"]):
+            for p in core.Executor(body, stop_blocks=tuple(heads), max_depth=300, max_paths=2000).run(entry):
+                stores = [e for e in p.events if e[0] == "call" and e[1].endswith("index_mut") and "Stack" in e[1]]
+                pushes = [e for e in p.events if e[0] == "call" and e[1].endswith("TrailEntry>::push")]
+                if not stores or pushes:
+                    continue
+                n += 1
+                enc = Encoder()
+                loc = enc.bv(stores[-1][2][1])
+                b = enc.bv(bcap)
+                conds = enc.conj([c for c in p.conds if c[0][0] == "op"])
+                queries.append(enc.decls() + "\n(assert %s)\n(assert (bvult %s %s))" % (conds, loc, b))
+                meta.append({"fn": short, "obligation": "%s: a stack cell below the newest choice point is never "
+                             "overwritten without a trail entry" % short})
+        if n == 0:
+            queries.append("(assert false)")
+            meta.append({"fn": short, "obligation": "%s: every overwriting path pushes a trail entry" % short})
+    return queries, meta
+
+
 def analyse_builtin_sites(mir):
     """Every function of system_calls.rs that calls MachineState::trail (attribute lists, global
     variables): on each path, every store into a heap cell / into a global variable's slot that is
@@ -399,6 +442,8 @@ def run(thorough=False):
         unwind = analyse_unwind(mir)
         binds = analyse_bind(mir)
         site_q, site_m, site_s = analyse_builtin_sites(mir)
+        il_q, il_m = analyse_inline_trailing(mir)
+        site_q, site_m = site_q + il_q, site_m + il_m
     except Exception as e:  # noqa
         log("  mirsmt C11: cannot analyse (%s)" % e)
         return {"exit": EXIT_INCONCLUSIVE, "mirsmt_error": str(e)}
